@@ -415,6 +415,65 @@ class Gen:
         lines.append(f"run {run}")
         return lines
 
+    # ------------------------------------------------------------------ directed channel shapes (profile flag "chanshape")
+    def program_chanshape(self, name, run):
+        """one channel, 2–3 sender bodies racing on it, one receiver (task 0 or a child); endpoints dropped at chosen
+        points; small enough for the schedule tree to be explored (almost) exhaustively"""
+        r = self.r
+        kind = r.choice(["rdv", "rdv", "cap:1", "cap:1", "cap:2", "unb", "unb"])
+        ns = 2 + (1 if r.chance(1, 3) else 0)
+        rx_child = r.chance(1, 4)
+        nt = 1 + ns + (1 if rx_child else 0)
+        bodies = [[] for _ in range(nt)]
+        senders = list(range(1, 1 + ns))
+        rxb = nt - 1 if rx_child else 0
+        total = 0
+        for k in senders:
+            c = r.below(10)
+            if c < 1:
+                ops = ["drop_tx c0"]                       # a clone that is dropped unused
+            elif c < 2:
+                ops = ["yield"]                            # … dropped implicitly at the end (has to use tx to get one)
+                ops.append("drop_tx c0")
+            else:
+                ops = []
+                for _ in range(1 + r.below(2)):
+                    ops.append(f"{'try_send' if r.chance(1, 5) else 'send'} c0 {10 * k + len(ops)}")
+                    total += 1
+                if r.chance(1, 4):
+                    ops.insert(r.below(len(ops) + 1), "yield")
+                if r.chance(1, 4):
+                    ops.append("drop_tx c0")
+            bodies[k] = ops
+        nrecv = max(0, total - r.below(3)) if not r.chance(1, 6) else total + 1
+        rops = [f"{'try_recv' if r.chance(1, 6) else 'recv'} c0" for _ in range(nrecv)]
+        if r.chance(1, 3):
+            rops.insert(r.below(len(rops) + 1), "drop_rx c0")
+        main = []
+        for k in senders:
+            main.append(f"spawn {k}")
+        if r.chance(1, 2):
+            main.insert(r.below(len(main) + 1), "drop_tx c0")      # main's own sender handle goes away early
+        elif r.chance(1, 3):
+            main.append(f"send c0 {1 + r.below(9)}")
+        if rx_child:
+            bodies[rxb] = rops
+            main.insert(r.below(len(main) + 1), f"spawn {rxb}")
+        else:
+            main += rops
+        if r.chance(1, 2):
+            for k in range(1, nt):
+                if r.chance(2, 3):
+                    main.append(f"join {k}")
+        bodies[0] = main
+        lines = [f"=== {name}", "config steps=none clocks=1", f"obj c0 chan {kind}"]
+        for k, b in enumerate(bodies):
+            lines.append(f"task {k} thread")
+            lines += ["  " + o for o in b]
+            lines.append("end")
+        lines.append(f"run {run}")
+        return lines
+
     # ------------------------------------------------------------------ async layer (profiles with "async")
     def async_leaf(self, objs, k, nt, fut):
         """one awaitable: the tokens of an async op"""
@@ -611,6 +670,7 @@ PROFILES = {
     "chan": {"objs": {"atomic": (0, 1), "chan": (1, 2)}, "parent0": (9, 10),
              "weights": {"send": 5, "recv": 4, "atomic": 1, "yield": 1},
              "min_tasks": 1, "extra_tasks": 2, "min_ops": 1, "extra_ops": 3},
+    "chan_shape": {"chanshape": True, "dfs_iters": 1500, "objs": {}},
     "chan_dl": {"objs": {"chan": (1, 2), "mutex": (0, 1)}, "dl": True, "parent0": (9, 10),
                 "weights": {"send": 4, "recv": 5, "lock": 1, "yield": 1, "panic": 1},
                 "min_tasks": 1, "extra_tasks": 2, "min_ops": 1, "extra_ops": 3},
@@ -660,7 +720,7 @@ PROFILES = {
 PROFILES.update(gen_tokio.PROFILES)
 
 
-def runs_for(rng, kinds=("random", "pct", "rr", "dfs")):
+def runs_for(rng, kinds=("random", "pct", "rr", "dfs"), dfs_iters=None):
     k = rng.choice(list(kinds))
     if k == "random":
         return f"random:{rng.below(2**32)}:{2 + rng.below(3)}"
@@ -670,7 +730,7 @@ def runs_for(rng, kinds=("random", "pct", "rr", "dfs")):
         return "rr:1"
     if k == "urw":
         return f"urw:{rng.below(2**32)}:{2 + rng.below(3)}"
-    return f"dfs:{5 + rng.below(20)}"
+    return f"dfs:{5 + rng.below(20)}" if not dfs_iters else f"dfs:{dfs_iters}"
 
 
 def batch(seed, profile, count, prefix, kinds=("random", "pct", "rr", "dfs")):
@@ -678,5 +738,7 @@ def batch(seed, profile, count, prefix, kinds=("random", "pct", "rr", "dfs")):
     g = Gen(rng, PROFILES[profile] if isinstance(profile, str) else profile)
     lines = []
     for i in range(count):
-        lines += (g.program_async if g.p.get("async") else g.program)(f"{prefix}{i}", runs_for(rng, kinds))
+        fn = g.program_chanshape if g.p.get("chanshape") else (g.program_async if g.p.get("async") else g.program)
+        # directed shapes are small: explore their schedule trees (almost) exhaustively
+        lines += fn(f"{prefix}{i}", runs_for(rng, ("dfs",) if g.p.get("dfs_iters") else kinds, g.p.get("dfs_iters")))
     return lines
